@@ -438,6 +438,15 @@ theorem babinet_principle_real (m n M : Nat) (hm : m ≤ M) (hn : n ≤ M) (hm0 
     (eReal_orth M hM0) (Real.mul_self_sqrt (by positivity)) dx efl lam fdx hdx hf hl hd hband lyot mask f j i hj hi
 
 
+/-- the array the Lean driver prints for a `bab` request holds, at every index inside it, the value of `Model.C05.babinet` (the
+subject of `gen_babinet`, `babinet_split`, `babinet_principle`) -/
+theorem driver_babinet_table_is_model {R V : Type} [Field R] [CharZero R] [Field V] [CharZero V]
+    (e : R → V) (ofR : R → V) (sqrt : R → R) (m n My Mx : Nat) (dx efl lam fdx : R)
+    (lyot mask f : Array (Array V)) (j i : Nat) (hj : j < m) (hi : i < n) :
+    Model.C01.rd2 (Model.C03.Exec.babTableG e ofR sqrt m n My Mx dx efl lam fdx lyot mask f) j i
+      = Model.C05.babinet e ofR sqrt m n My Mx dx efl lam fdx (Model.C01.rd2 lyot) (Model.C01.rd2 mask) (Model.C01.rd2 f) j i :=
+  babTableG_eq e ofR sqrt m n My Mx dx efl lam fdx lyot mask f j i hj hi
+
 /-! ## non-vacuity (exact rational arithmetic): a band-complete 8-sample mask grid for a 6-sample pupil -/
 example : (1/2 : ℚ) * (25/2) / ((1/2) * 100) = 1 / 8 := by norm_num
 example : fpmBackShift0 (6 : ℚ) 5 8 8 (1/2) 100 (1/2) (25/2) 25 0 = 2 ∧ fpmFwdShift0 (6 : ℚ) 5 8 8 (1/2) 100 (1/2) (25/2) 25 0 = 2 := by
